@@ -53,6 +53,9 @@ def run(chk: Check, drv: Driver):
     )
     quick = chk.tier == "quick"
     rng = chk.rng
+    from .. import graphcorr
+
+    graphcorr.run(chk, drv, 2000 if quick else 20000)
     prepared = []
     for pr in kruns.enumerate_problems(chk, n_random=(60 if quick else 600), per_assignment=(5 if quick else 20)):
         if pr.problem is None or "s" not in pr.fmts[pr.assignment.target.name][0]:
